@@ -184,8 +184,7 @@ Proof.
   intros Honce kv Hin. unfold strip_node in Hin |- *.
   destruct (annos_of n) as [|a0 at_] eqn:EA.
   - rewrite EA in Hin. destruct Hin.
-  - destruct n as [t s v|kvs|es]; try (rewrite EA in Hin; now apply Hygiene_in_absurd || idtac).
-    all: try (unfold annos_of in EA; cbn in EA; discriminate).
+  - destruct n as [t s v|kvs|es]; try (unfold annos_of in EA; cbn in EA; discriminate).
     cbn [annos_once] in Honce.
     destruct (find_field "metadata" kvs) as [md|] eqn:EM.
     2:{ unfold annos_of, get_meta in EA. rewrite EM in EA. discriminate. }
